@@ -18,6 +18,10 @@ import) and the independent OSC decoder vf/osc.py:
             programs are multi-step histories on event objects: play, edit
             (set / add / delete keys, change instrument), play again, copy() +
             edit + play; every play must carry the object's current values.
+  (timeline also: the same pattern OBJECT embedded or played more than once -
+            after a Pdur cut, after a complete run, concurrently in one Ppar or
+            by overlapping players, after a stopped player - each embedding
+            must give the timeline of a fresh equal pattern, shifted.)
   timeline  Pbind/Pmono/Ppar/Pchain/Pdur/Pdelta compositions played by
             Pattern.play: every expected event at start + sum of previous
             deltas (+ latency), rests silent, Pmono set/release traffic, total
@@ -46,7 +50,10 @@ RULE = ("seeded random cases. chain: explicit key sets over the pitch "
         "non-trivial = gate and gateless instruments or non-zero latency/start "
         "or a replayed object. timeline: "
         "compositions of depth <= 3 over Pseq/Pser/Pseries columns; non-trivial "
-        "= at least one combinator or a rest. Distinct = hash of the spec. "
+        "= at least one combinator or a rest; 30% of the timeline cases re-use "
+        "one pattern object (Pseq([Pdur(d, x), x]), Pn(Pdur(d, x), n), "
+        "Ppar(x, Pdelta(t, x)), overlapping players, play/stop/play). "
+        "Distinct = hash of the spec. "
         "Restricted to inputs where the SuperCollider documentation and the "
         "port's in-code notes agree (no fractional degrees, ctranspose only "
         "with midinote/note sources, harmonic != 1 only without explicit freq, "
@@ -72,7 +79,11 @@ MIN_COUNTERS = {
               'tl_s_new_checked': 4000, 'tl_rests_silent': 300,
               'tl_total_duration_checked': 800, 'tl_with_ppar': 300,
               'tl_with_pdur_clipping': 40, 'tl_with_pdelta': 200,
-              'tl_with_pchain': 200, 'tl_mono_set_checked': 200},
+              'tl_with_pchain': 200, 'tl_mono_set_checked': 200,
+              'tl_reuse_cases_ok': 500,
+              'tl_repeated_embedding_s_new_checked': 2000,
+              'tl_reuse_cut-then-full': 40, 'tl_reuse_players-overlap': 40,
+              'tl_reuse_stop-replay': 40, 'tl_reuse_par-twice': 20},
     'thorough': {'chain_lookups_compared': 300000, 'scale_keys_compared': 100000,
                  'play_s_new_checked': 80000, 'play_gate_off_checked': 30000,
                  'play_no_gate_checked': 30000,
@@ -82,7 +93,11 @@ MIN_COUNTERS = {
                  'tl_s_new_checked': 50000, 'tl_rests_silent': 3000,
                  'tl_total_duration_checked': 15000, 'tl_with_ppar': 5000,
                  'tl_with_pdur_clipping': 1000, 'tl_with_pdelta': 3000,
-                 'tl_with_pchain': 3000, 'tl_mono_set_checked': 2000},
+                 'tl_with_pchain': 3000, 'tl_mono_set_checked': 2000,
+                 'tl_reuse_cases_ok': 10000,
+                 'tl_repeated_embedding_s_new_checked': 40000,
+                 'tl_reuse_cut-then-full': 800, 'tl_reuse_players-overlap': 800,
+                 'tl_reuse_stop-replay': 800, 'tl_reuse_par-twice': 400},
 }
 
 
@@ -132,10 +147,10 @@ def exc_key(e):
 def _flat_kinds(p, out=None):
     out = set() if out is None else out
     out.add(p[0])
-    if p[0] == 'ppar':
+    if p[0] in ('ppar', 'pseq'):
         for c in p[1]:
             _flat_kinds(c, out)
-    elif p[0] in ('pchain', 'pdur', 'pdelta'):
+    elif p[0] in ('pchain', 'pdur', 'pdelta', 'pn'):
         _flat_kinds(p[2], out)
     return out
 
@@ -330,8 +345,8 @@ def _rest_valued_delta_onsets(case, tl):
     """Onsets (relative) of events that hand a Rest-valued delta straight to the
     player: a Rest in dur/stretch/delta of a leaf that is not below a Ppar."""
     from vf import model_events as me
-    kinds = _flat_kinds(case['pattern'])
-    if 'ppar' in kinds:
+    kinds = _flat_kinds(case['expanded'])
+    if 'ppar' in kinds or case.get('plays'):
         return []
     out = []
     for onset, e in tl.items:
@@ -352,15 +367,40 @@ def run_timeline(spec, acc):
     for i in iter_cases(spec):
         rng = case_rng(spec['seed'], 'C14', 'timeline', i)
         case = gen.timeline_case(rng, insts, tags)
-        kinds = _flat_kinds(case['pattern'])
-        tl = me.timeline(case['pattern'])
+        pat = me.expand(case['pattern'], case.get('shared') or {})
+        kinds = _flat_kinds(pat)
+        tl = me.timeline(pat)
         has_rest = any(e.rest and e.kind != 'silent' for _, e in tl.items)
-        acc.case(h64(repr(case)), nontrivial=len(kinds) > 1 or has_rest)
+        acc.case(h64(repr(case)), nontrivial=len(kinds) > 1 or has_rest
+                 or 'form' in case)
         cap, start = run.run_timeline_case(case)
+        case['expanded'] = pat
         if _report_raises(acc, 'timeline', cap, i, {'timeline_case': case}):
             continue
         ex = run.expect_timeline(case, start, info, groups)
         bad = run.compare(ex, cap, acc, 'tl', case['offgrid'])
+        del case['expanded']
+        if 'form' in case:
+            # the same pattern object embedded / played more than once: one
+            # mechanism class per kind of traffic difference
+            acc.count(f"tl_reuse_{case['form']}")
+            if not bad:
+                acc.count('tl_reuse_cases_ok')
+            if bad:
+                cls = {'cut-then-full': 'embedded-again-after-a-cut',
+                       'cuts': 'embedded-again-after-a-cut',
+                       'pn-cut': 'embedded-again-after-a-cut',
+                       'pn-full': 'embedded-again-after-a-complete-run',
+                       'par-twice': 'embedded-concurrently',
+                       'players-overlap': 'embedded-concurrently',
+                       'stop-replay': 'played-again-after-stop'}[case['form']]
+                acc.violation(
+                    f'C14/timeline-object-reuse/{cls}',
+                    {'case': i, 'form': case['form'],
+                     'differences': sorted({k for k, _ in bad}),
+                     'first': bad[0][1], 'timeline_case': case})
+            continue
+        case['expanded'] = pat
         # diagnosis: the player stopped at a rest whose delta is a Rest object
         rv = _rest_valued_delta_onsets(case, tl)
         if bad and rv and cap.elapsed is not None \
@@ -373,6 +413,7 @@ def run_timeline(spec, acc):
                            'stopped_at': cap.elapsed,
                            'expected_total': ex.total})
             continue
+        del case['expanded']
         # diagnosis: Pdur cut an event whose delta is an int
         if bad and 'clipped-delta-was-int' in tl.flags and all(
                 k.startswith(('total-duration', 'time/mono-release'))
@@ -393,7 +434,7 @@ def run_timeline(spec, acc):
                 acc.count(f'tl_with_{k}')
             if 'pdur' in kinds:
                 acc.count('tl_with_pdur')
-                if _clips(case['pattern']):
+                if _clips(pat):
                     acc.count('tl_with_pdur_clipping')
         if not acc.samples and len(kinds) >= 3 and len(tl.items) <= 8 \
                 and not bad:
@@ -406,8 +447,8 @@ def _clips(p):
     from vf import model_events as me
     if p[0] == 'pdur':
         return me.timeline(p[2]).total > p[1] or _clips(p[2])
-    if p[0] == 'ppar':
+    if p[0] in ('ppar', 'pseq'):
         return any(_clips(c) for c in p[1])
-    if p[0] in ('pchain', 'pdelta'):
+    if p[0] in ('pchain', 'pdelta', 'pn'):
         return _clips(p[2])
     return False
